@@ -153,6 +153,15 @@ def run_c06(prop, tier, seed, replay=None):
         nstreams = 150 if tier == "quick" else 3000
         small = [c for c in cases if c["m"].get("n", 0) <= 17]
         streams = []
+        # every small message appears in at least one stream (so every decoder branch sees every cut position) ...
+        order = list(small)
+        rng.shuffle(order)
+        for k in range(0, len(order), 4):
+            streams.append({"kind": "stream", "seed": seed * 13 + k, "cases": order[k:k + 4]})
+        # ... the larger payloads (bitfields of 1000 bytes) between two small messages ...
+        for c in [c for c in cases if 17 < c["m"].get("n", 0) <= 1000][:12]:
+            streams.append({"kind": "stream", "seed": seed * 17 + len(streams), "cases": [rng.choice(small), c, rng.choice(small)]})
+        # ... and random compositions
         for k in range(nstreams):
             streams.append({"kind": "stream", "seed": seed * 7 + k, "cases": [rng.choice(small) for _ in range(rng.randint(2, 6))]})
         # one long stream with full-size blocks, cut at random points only
